@@ -99,6 +99,7 @@ class SimConn:
         self.cut_gap = cuts.get("gap", 0.0)
         self._next_cut = self.cut_sizes[0] if (self.cut_mode == "sizes" and self.cut_sizes) else None
         self._cut_i = 0
+        self._cuts_done: set = set()
         self.d2c_off = 0  # bytes produced by device so far
         self._last_arrival = 0.0
         self.frames: list[dict] = []  # device frames: {idx, end, name, type, payload, tampered}
@@ -122,7 +123,10 @@ class SimConn:
         return lat
 
     def device_send(self, data: bytes, frames: list[dict] | None = None, latency: float | None = None) -> None:
-        """Emit bytes; `frames` = metadata of the device frames contained (in order, contiguous)."""
+        """Emit bytes; `frames` = metadata of the device frames contained (in order, contiguous).
+
+        The pipe is strictly FIFO: cut points and release times are fixed here, at send time.
+        """
         if not data:
             return
         start = self.d2c_off
@@ -133,56 +137,34 @@ class SimConn:
                 self.frames.append(f)
         lat = self._latency() if latency is None else latency
         t = max(self._last_arrival, self.world.now + lat)
+        pts = self._cut_points(start, start + len(data))
+        boundary_cut = self.cut_mode == "sends" or start in self._cuts_done
+        if pts:
+            self.world.probe("cut_inside_send")
+        prev = start
+        for k, p in enumerate(pts + [start + len(data)]):
+            piece = data[prev - start : p - start]
+            merge = (k == 0) and not boundary_cut
+            if k > 0:
+                t += self.cut_gap
+            self.world.at(t, lambda off=prev, piece=piece, merge=merge: self._release(off, piece, merge))
+            prev = p
         self._last_arrival = t
-        self.world.at(t, lambda: self._arrive(start, data))
 
     def _cut_points(self, a: int, b: int) -> list[int]:
+        """Cut offsets strictly inside (a, b); offsets equal to a are remembered in _cuts_done."""
         pts: list[int] = []
         if self.cut_mode == "sizes" and self.cut_sizes:
             while self._next_cut is not None and self._next_cut < b:
+                self._cuts_done.add(self._next_cut)
                 if self._next_cut > a:
                     pts.append(self._next_cut)
                 self._cut_i += 1
                 self._next_cut += max(1, self.cut_sizes[self._cut_i % len(self.cut_sizes)])
         elif self.cut_mode == "at":
+            self._cuts_done = self.cut_at
             pts = sorted(p for p in self.cut_at if a < p < b)
         return pts
-
-    def _arrive(self, start: int, data: bytes) -> None:
-        if self.client_gone:
-            return
-        pts = self._cut_points(start, start + len(data))
-        pieces = []
-        prev = start
-        for p in pts + [start + len(data)]:
-            pieces.append((prev, data[prev - start : p - start]))
-            prev = p
-        if len(pieces) > 1:
-            self.world.probe("cut_inside_arrival")
-        boundary_cut = (
-            self.cut_mode == "sends"
-            or (self.cut_mode == "at" and start in self.cut_at)
-            or (self.cut_mode == "sizes" and self._next_cut is not None and self._is_size_boundary(start))
-        )
-        for k, (off, piece) in enumerate(pieces):
-            merge = (k == 0) and not boundary_cut
-            if k == 0 or self.cut_gap == 0:
-                self._release(off, piece, merge)
-            else:
-                t = self.world.now + k * self.cut_gap
-                self._last_arrival = max(self._last_arrival, t)
-                self.world.at(t, lambda off=off, piece=piece: self._release(off, piece, False))
-
-    def _is_size_boundary(self, off: int) -> bool:
-        # a boundary was consumed exactly at `off` iff the running cut cursor passed it
-        tot = 0
-        i = 0
-        if not self.cut_sizes:
-            return False
-        while tot < off:
-            tot += max(1, self.cut_sizes[i % len(self.cut_sizes)])
-            i += 1
-        return tot == off and off != 0
 
     def _release(self, off: int, piece: bytes, merge: bool) -> None:
         if self.client_gone or self.sock.closed:
